@@ -305,7 +305,7 @@ fn gen_original_map(t: &mut Tape, src: &str) -> (Map, Value) {
 
 const REF_KINDS: &[&str] = &[
     "inline", "external-relative", "external-absolute", "missing", "unreadable", "invalid-base64", "invalid-json", "index-map", "legacy-at", "block-comment", "none", "two-comments", "lookalike-string",
-    "lookalike-regex", "lookalike-template",
+    "lookalike-regex", "lookalike-template", "inline-charset",
 ];
 
 pub struct C10;
@@ -350,6 +350,11 @@ impl Check for C10 {
             "inline" => {
                 usable = true;
                 format!("//# sourceMappingURL=data:application/json;base64,{b64}")
+            }
+            // the preamble most tools emit (babel, webpack, convert-source-map)
+            "inline-charset" => {
+                usable = true;
+                format!("//# sourceMappingURL=data:application/json;charset=utf-8;base64,{b64}")
             }
             "external-relative" => {
                 usable = true;
